@@ -234,6 +234,75 @@ func runC03(c *core.Ctx) {
 		c.ClassN(nStates * 2 * 5)
 		c.End(blockID)
 	}
+	// ---- thorough: all rule lists of length 3 over a reduced vocabulary, on the 3-path sub-universe ----
+	if !c.Quick() {
+		small := [][]string{
+			{"ALLOW", "*"}, {"ALLOW", "a"}, {"CREATE", "*"}, {"DELETE", "d/*"}, {"MODIFY", "*"}, {"DISALLOW", "*"}, {"DISALLOW", "d/*"}, {"REQUIRE", "a"}, {"REQUIRE", "d/a"},
+			{"MATCH", "*", "WITH", "PRODUCTS", "FROM", "s2"}, {"MATCH", "a", "WITH", "MATERIALS", "FROM", "s2"}, {"MATCH", "*", "IN", "d", "WITH", "PRODUCTS", "FROM", "s2"},
+			{"MATCH", "*", "WITH", "PRODUCTS", "IN", "e", "FROM", "s2"}, {"MATCH", "*", "IN", "d", "WITH", "PRODUCTS", "IN", "e/d", "FROM", "s2"},
+		}
+		paths3 := []string{"a", "d/a", "dx/a"}
+		state3 := func(idx int) map[string]ref.HashObj {
+			m := map[string]ref.HashObj{}
+			for _, p := range paths3 {
+				switch idx % 3 {
+				case 1:
+					m[p] = h1
+				case 2:
+					m[p] = h2
+				}
+				idx /= 3
+			}
+			return m
+		}
+		n3 := 0
+		for i1, r1 := range small {
+			for i2, r2 := range small {
+				for i3, r3 := range small {
+					n3++
+					if !c.Mine(n3) {
+						continue
+					}
+					blockID := fmt.Sprintf("enum3/%d-%d-%d", i1, i2, i3)
+					if c.Only != "" && !strings.HasPrefix(c.Only, blockID+"/") {
+						continue
+					}
+					c.Begin(blockID)
+					rules3 := [][]string{r1, r2, r3}
+					for ms := 0; ms < 27; ms++ {
+						for ps := 0; ps < 27; ps++ {
+							link := ref.LinkState{Materials: state3(ms), Products: state3(ps)}
+							side := (ms + ps + n3) % 2
+							for probe := -1; probe < len(paths3); probe++ {
+								rules := rules3
+								if probe >= 0 {
+									rules = append(append([][]string{}, rules3...), []string{"DISALLOW", paths3[probe]})
+								}
+								k := c03Case{Inspection: (ms+ps)%2 == 1, Link: link, Dst: dst}
+								if side == 0 {
+									k.Mats = rules
+								} else {
+									k.Prods = rules
+								}
+								id := fmt.Sprintf("%s/m%d/p%d/side%d/probe%d", blockID, ms, ps, side, probe)
+								if !c.Want(id) {
+									continue
+								}
+								ie, _ := c03Run(c, id, k)
+								if ie == nil {
+									accepted++
+								} else {
+									rejected++
+								}
+							}
+						}
+					}
+					c.ClassN(27 * 27 * 4)
+					c.End(blockID)
+				}
+			}
+		}
+	}
 	c.Obs("enum_accepted", accepted)
 	c.Obs("enum_rejected", rejected)
 
@@ -490,7 +559,7 @@ func init() {
 	core.Register(&core.Property{
 		ID:    "C03",
 		Level: "exploration",
-		Rule: "exhaustive: universe paths {a, d/a, d/b, dx/a} x hashes {h1,h2}: all 6561 (materials,products) link states x rule lists over a 50-rule vocabulary (7 rule types, patterns * a d/* ? d/a, MATCH in all 4 forms with prefixes d, d/, e, e/d, both destination types, missing destination) of length<=1 completely and all 2-rule lists each on a seed-determined half of the link states (thorough); quick: all lists of length<=1 and a seeded 1% of the 2-rule lists, each on a seed-determined half of the link states, on the material and on the product side, for Step and Inspection items, each list also with a terminal probe DISALLOW <path> per universe path (queue observability); random: 8-path universe, 4 hash objects incl. other algorithm sets, lists of 1-11 rules with mixed-case keywords and occasional malformed rules; grammar: all token lists of length<=4 over 8 tokens + every valid form with <=2 substitutions / 1 insertion / 1 deletion in random casing. " +
+		Rule: "exhaustive: universe paths {a, d/a, d/b, dx/a} x hashes {h1,h2}: all 6561 (materials,products) link states x rule lists over a 50-rule vocabulary (7 rule types, patterns * a d/* ? d/a, MATCH in all 4 forms with prefixes d, d/, e, e/d, both destination types, missing destination) of length<=1 completely and all 2-rule lists each on a seed-determined half of the link states (thorough); quick: all lists of length<=1 and a seeded 1% of the 2-rule lists, each on a seed-determined half of the link states, on the material and on the product side, for Step and Inspection items (thorough also: all 2744 lists of length 3 over a 14-rule sub-vocabulary on the 3-path sub-universe {a, d/a, dx/a}, 729 link states, alternating sides), each list also with a terminal probe DISALLOW <path> per universe path (queue observability); random: 8-path universe, 4 hash objects incl. other algorithm sets, lists of 1-11 rules with mixed-case keywords and occasional malformed rules; grammar: all token lists of length<=4 over 8 tokens + every valid form with <=2 substitutions / 1 insertion / 1 deletion in random casing. " +
 			"Oracle = reference queue interpreter + reference grammar written from the spec text, using the reference glob (not the library's). non-trivial/distinct = enumerated cases are distinct by construction, random ones by hash of the whole case",
 		Assumptions: []string{
 			"only clean relative slash paths, clean patterns and prefixes (path.Clean(x)==x, prefixes also with one trailing slash) are generated: behaviour on unclean paths is not stated by the property and not judged",
